@@ -53,7 +53,8 @@ def build(V, cfg):
             else:
                 g = []  # empty groups: the step may fire as soon as its start time is known
             groups[(j, k)] = g
-            c.q_grouped.append(g)
+            if not cfg.get("ahead"):
+                c.q_grouped.append(g)
     obs = []
     for k in range(K):
         node.q_tick.append(True)
@@ -61,6 +62,15 @@ def build(V, cfg):
         node.push_scheduled_ts()
         fired = len(node._record_steps) == k + 1
         obs.append(dict(fired=fired, tasks=list(rec.tasks[n_tasks:])))
+    if cfg.get("ahead"):
+        # the other legal schedule: the scheduling chain has simulated all K ticks ahead (tokens allow it) before any selected group arrives; the steps
+        # then fire one by one from the connections' push_selection -> push_step pokes
+        for k in range(K):
+            n_tasks = len(rec.tasks)
+            for j, c in enumerate(conns):
+                c.q_grouped.append(groups[(j, k)])
+                node.push_step()
+            obs[k] = dict(fired=len(node._record_steps) == k + 1, tasks=obs[k]["tasks"] + list(rec.tasks[n_tasks:]))
     return node, rec, obs, dict(phase=ph, tsmax=tsmax, conns=conns, out_conn=oc, groups=groups, started=started)
 
 
@@ -234,6 +244,12 @@ def run(rep):
                        "communication clause (recv = round6(max(end + d, prev))) is C03's push_ts_input obligation"]
     rep.stubs = ["_submit -> recorder", "node.step -> opaque stand-in", "numpy dtype promotion of tick/ts (onp.array(x).astype) -> identity", "throttle disabled"]
     obs = pmap("props.c04", "worker", cfgs, rep.tier)
+    # "arrival of blocking inputs" is an input of the law above (q_ts_max entries); that the connection computes it as the latest receive time of *all*
+    # messages the step waits for is C03's push_ts_max scenario, claimed here as well (k awaited messages >, = and < the window)
+    import rex.asynchronous as A
+    rep.encode(A._AsyncConnectionWrapper.push_ts_max)
+    tm = pmap("props.c03", "worker", [dict(scen="ts_max", nq=nq, k=k) for nq, k in ((3, 2), (1, 2), (2, 0), (4, 3))], rep.tier)
+    obs += tm
     rep.paths = sum((o.get("detail") or {}).get("stats", {}).get("paths", 0) for o in obs if isinstance(o.get("detail"), dict))
     rep.add_all(obs)
 
